@@ -222,6 +222,25 @@ func editInPlace(rng *rand.Rand, e *oracle.Expr, q *updog.Query, ds *gen.Dataset
 		other0 = other[0]
 	}
 	cols := ds.ColNames()
+	if len(q.GroupBy) > 1 && rng.Intn(3) == 0 {
+		// the same columns in another order: swapped in place, rotated in place, or a reordered NEW slice assigned
+		switch rng.Intn(3) {
+		case 0:
+			i, j := rng.Intn(len(q.GroupBy)), rng.Intn(len(q.GroupBy))
+			q.GroupBy[i], q.GroupBy[j] = q.GroupBy[j], q.GroupBy[i]
+		case 1:
+			first := q.GroupBy[0]
+			copy(q.GroupBy, q.GroupBy[1:])
+			q.GroupBy[len(q.GroupBy)-1] = first
+		default:
+			n := append([]string{}, q.GroupBy...)
+			for i, j := 0, len(n)-1; i < j; i, j = i+1, j-1 {
+				n[i], n[j] = n[j], n[i]
+			}
+			q.GroupBy = n
+		}
+		return "group-by columns permuted"
+	}
 	if len(q.GroupBy) > 0 && rng.Intn(4) == 0 {
 		c := cols[rng.Intn(len(cols))]
 		if rng.Intn(2) == 0 && (len(q.GroupBy) == 1 || len(ds.Vals[c]) < 50) && (other0 == nil || len(other0.Vals[c]) < 50) {
